@@ -113,5 +113,75 @@ func runC15(c *Ctx) error {
 		}
 	}
 	c.Extra("exhaustive_grid", true)
+	// faults: the merge of one block fails, or the context is cancelled while one block is merged; whatever happens,
+	// a run that reports success has stored every block of the range
+	maxF := 7
+	if c.Thorough() {
+		maxF = 14
+	}
+	for n := 1; n <= maxF; n++ {
+		for limit := 1; limit <= 5; limit++ {
+			for pos := 0; pos < n; pos++ {
+				for _, mode := range []string{"merge-fails", "cancelled-during-merge"} {
+					from := c.Intn(4)
+					to := from + n - 1
+					lg := &c15log{}
+					ctx, cancel := context.WithCancel(context.Background())
+					bad := from + pos
+					err := isaacblock.ImportBlocks(ctx, base.Height(from), base.Height(to), int64(limit), nil,
+						func(_ context.Context, h base.Height) (base.BlockMap, bool, error) {
+							return base.NewDummyBlockMap(base.NewDummyManifest(h, valuehash.RandomSHA256())), true, nil
+						},
+						nil,
+						func(m base.BlockMap) (isaac.BlockImporter, error) {
+							return &c15faulty{c15importer: c15importer{height: int(m.Manifest().Height()), log: lg}, bad: bad, mode: mode, cancel: cancel}, nil
+						},
+						nil,
+						func(context.Context) error { return nil },
+					)
+					cancel()
+					saved := append([]int{}, lg.saved...)
+					sort.Ints(saved)
+					c.Eval(1)
+					c.Count("faults", fmt.Sprintf("%s/%s", mode, map[bool]string{true: "success", false: "error"}[err == nil]))
+					if err == nil {
+						full := len(saved) == n
+						for i := range saved {
+							if full && saved[i] != from+i {
+								full = false
+							}
+						}
+						if !full {
+							c.Violation("C15:success-with-blocks-missing", fmt.Sprintf("ImportBlocks(%d..%d, batch %d) with %s at block %d returned success but stored %v", from, to, limit, mode, bad, saved),
+								map[string]interface{}{"from": from, "to": to, "limit": limit, "mode": mode, "block": bad, "saved": saved})
+						}
+					}
+				}
+			}
+		}
+	}
 	return nil
+}
+
+// an importer whose merge step (the function Save returns) fails for one block, or cancels the run's context there
+type c15faulty struct {
+	c15importer
+	bad    int
+	mode   string
+	cancel func()
+}
+
+func (im *c15faulty) Save(context.Context) (func(context.Context) error, error) {
+	return func(context.Context) error {
+		if im.height == im.bad {
+			if im.mode == "merge-fails" {
+				return fmt.Errorf("merge of block %d failed", im.height)
+			}
+			im.cancel()
+		}
+		im.log.Lock()
+		im.log.saved = append(im.log.saved, im.height)
+		im.log.Unlock()
+		return nil
+	}, nil
 }
